@@ -228,6 +228,9 @@ impl D {
     fn new(id: u64) -> D {
         D { id, magic: D_MAGIC }
     }
+    fn intact(&self) -> bool {
+        self.magic == D_MAGIC
+    }
 }
 impl Drop for D {
     fn drop(&mut self) {
@@ -395,6 +398,63 @@ fn s4_scenario(prefill: usize) -> Scenario<S4> {
     }
 }
 
+/// S7: a snapshot reader that is slow inside its callback, a clearer that clears and then drives the epoch collector
+/// (as any other user of the collector in the process would), a pusher. What the reader was handed stays intact for as
+/// long as the callback runs: no value of the slice is destroyed under it (destructor count 0, magic intact), before and
+/// after the reader has been preempted inside the callback.
+fn s7_scenario() -> Scenario<S4> {
+    Scenario {
+        name: "S7-slow-snapshot-reader-vs-clear-and-collector".into(),
+        setup: Box::new(|| {
+            for d in D_DROPS.iter() {
+                d.store(0, Ordering::SeqCst);
+            }
+            D_FABRICATED.store(0, Ordering::SeqCst);
+            let s = S4 { b: AtomicBucket::new(), delivered: Log::new() };
+            for i in 0..3 {
+                s.b.push(D::new(8 + i as u64));
+            }
+            s
+        }),
+        bodies: vec![
+            body(|s: &S4| {
+                s.b.data_with(|xs| {
+                    let look = |when: u64| {
+                        for d in xs {
+                            let dc = D_DROPS[(d.id as usize).min(D_MAX - 1)].load(Ordering::SeqCst);
+                            if dc != 0 || !d.intact() {
+                                s.delivered.push((1000 + when, d.id.min(999) as usize));
+                            }
+                        }
+                    };
+                    look(0);
+                    vsched::point("reader_in_callback");
+                    look(1);
+                });
+            }),
+            body(|s: &S4| {
+                s.b.clear_with(|_| {});
+                for _ in 0..300 {
+                    crossbeam_epoch::pin().flush();
+                }
+            }),
+            body(|s: &S4| s.b.push(D::new(0))),
+        ],
+        check: Box::new(|s, _| {
+            let bad: Vec<(u64, usize)> = s.delivered.get().into_iter().filter(|(t, _)| *t >= 1000).collect();
+            if let Some((t, id)) = bad.first() {
+                return fail("value-destroyed-under-snapshot-reader", format!("a snapshot reader was inside its data_with callback ({} it was preempted there) while another thread cleared the bucket and the epoch collector ran: value {} of the slice it had been handed was destroyed under it ({} such observations)", if *t == 1000 { "before" } else { "after" }, id, bad.len()));
+            }
+            s.b.clear_with(|_| {});
+            for _ in 0..64 {
+                crossbeam_epoch::pin().flush();
+            }
+            Verdict::Ok(format!("{}", D_DROPS.iter().take(12).filter(|d| d.load(Ordering::SeqCst) == 1).count()))
+        }),
+        termination_promised: true,
+    }
+}
+
 fn scenario(name: &str) -> Option<Scenario<S>> {
     let p2 = |a: u64, b: u64| -> Body<S> {
         body(move |s: &S| {
@@ -531,7 +591,7 @@ fn parts(ctx: &Ctx) -> Vec<PartSpec> {
     let mut v = Vec::new();
     v.push(PartSpec::new("e3-long-chains-one-clear", json!({"chain": true})).budget(120.0));
     if ctx.quick() {
-        for s in ["S1", "S2", "S2b", "S3", "S3b", "S3c", "S4", "S4h", "S5", "S5h", "S5f", "S5g", "S6"] {
+        for s in ["S1", "S2", "S2b", "S3", "S3b", "S3c", "S4", "S4h", "S5", "S5h", "S5f", "S5g", "S6", "S7"] {
             v.push(PartSpec::new(&format!("{}-pb2", s), json!({"scn": s, "pb": 2})).budget(120.0));
         }
         for s in ["S1", "S2", "S3b"] {
@@ -545,7 +605,7 @@ fn parts(ctx: &Ctx) -> Vec<PartSpec> {
         for (s, pb, b) in [("push_clear", 2, 900.0), ("push_snap", 2, 1500.0), ("handover_clear", 2, 1500.0), ("full_push_clear", 2, 1500.0), ("handover_push_push", 2, 1500.0), ("handover_snap", 1, 900.0), ("push_clear_snap", 1, 1500.0), ("push_clear_clear", 1, 1500.0), ("full_clear_clear", 2, 900.0), ("push_push_clear", 1, 1500.0), ("handover_push_push_clear", 1, 1500.0)] {
             v.push(PartSpec::new(&format!("loom-{}-pb{}", s, pb), json!({"loom": s, "pb": pb})).budget(b));
         }
-        for s in ["S1", "S2", "S2b", "S3", "S3b", "S3c", "S3d", "S4", "S4h", "S5", "S5h", "S5f", "S5g", "S6"] {
+        for s in ["S1", "S2", "S2b", "S3", "S3b", "S3c", "S3d", "S4", "S4h", "S5", "S5h", "S5f", "S5g", "S6", "S7"] {
             v.push(PartSpec::new(&format!("{}-pb3", s), json!({"scn": s, "pb": 3})).budget(900.0));
         }
         for s in ["S1", "S3", "S2"] {
@@ -580,6 +640,7 @@ fn run(ctx: &Ctx, spec: &PartSpec) -> PartResult {
         "S4" => vsched::explore(&s4_scenario(0), &cfg, ctx, &mut res),
         "S4h" => vsched::explore(&s4_scenario(63), &cfg, ctx, &mut res),
         "S6" => vsched::explore(&s6_scenario(), &cfg, ctx, &mut res),
+        "S7" => vsched::explore(&s7_scenario(), &cfg, ctx, &mut res),
         other => match scenario(other) {
             Some(s) => vsched::explore(&s, &cfg, ctx, &mut res),
             None => res.error = Some(format!("unknown scenario {}", other)),
@@ -595,7 +656,7 @@ fn main() {
     driver::main(CheckDef {
         prop: "C05",
         level: "model_checking",
-        rule: "E2: loom 0.7.2 explores every C11 execution (which store each load reads, preemption-bounded) of the repository's own bucket.rs with crossbeam-epoch / crossbeam-utils compiled in their loom mode, every slot access tracked: pusher(2) || clearer, pusher(2) || snapshot reader + is_empty, two pushers || clearer, pusher || clearer || snapshot / second clearer, each also with 63 / 64 pre-filled slots (block hand-over inside the window); oracle: multiset conservation over all clears + final drain, per-block push order, snapshots show no fabricated / duplicated value and every completed push, and loom's own report of slot accesses not ordered by happens-before; E1: every interleaving (at atomic-operation granularity, sequentially consistent) of 3 real threads over the real AtomicBucket with at most pb preemptions; scenarios: 2 pushers x 2 pushes || clearer, pusher || reader(data_with,is_empty,data) || clearer, pusher || two clearers, each also with 63/62 pre-filled slots so the racing pushes straddle the block hand-over, and with a destructor-carrying payload; E3 long chains: 1..63 blocks of destructor-carrying values pushed, one clear_with (each value handed over once), the epoch collector driven, twice, each length in its own process: no destructor runs twice, the process survives; distinct = distinct (clear deliveries, snapshots, is_empty answers) outcome",
+        rule: "E2: loom 0.7.2 explores every C11 execution (which store each load reads, preemption-bounded) of the repository's own bucket.rs with crossbeam-epoch / crossbeam-utils compiled in their loom mode, every slot access tracked: pusher(2) || clearer, pusher(2) || snapshot reader + is_empty, two pushers || clearer, pusher || clearer || snapshot / second clearer, each also with 63 / 64 pre-filled slots (block hand-over inside the window); oracle: multiset conservation over all clears + final drain, per-block push order, snapshots show no fabricated / duplicated value and every completed push, and loom's own report of slot accesses not ordered by happens-before; E1: every interleaving (at atomic-operation granularity, sequentially consistent) of 3 real threads over the real AtomicBucket with at most pb preemptions; scenarios: 2 pushers x 2 pushes || clearer, pusher || reader(data_with,is_empty,data) || clearer, pusher || two clearers, each also with 63/62 pre-filled slots so the racing pushes straddle the block hand-over, and with a destructor-carrying payload; a slow snapshot reader against a clearer that then drives the epoch collector (nothing the reader was handed is destroyed under it); E3 long chains: 1..63 blocks of destructor-carrying values pushed, one clear_with (each value handed over once), the epoch collector driven, twice, each length in its own process: no destructor runs twice, the process survives; distinct = distinct (clear deliveries, snapshots, is_empty answers) outcome",
         assumptions: &["E1: sequential consistency; E2: loom's C11 model (no SeqCst-fence weakening beyond what loom implements), Block::new built field by field instead of zeroed (loom atomics cannot be zero-initialised)", "scheduling points = every facade atomic / epoch-pointer operation + the slot write; other code between two points runs atomically", "BLOCK_SIZE = 64"],
         parts,
         run,
